@@ -89,6 +89,28 @@ structure FloatTextSafe (ft : FloatText) : Prop where
   f64 : ∀ v, safeText (ft.show64 v) = true
   f32 : ∀ v, safeText (ft.show32 v) = true
 
+/-- none of these characters is white space (Rust `char::is_whitespace`) -/
+theorem numN_noWs {c : Char} (h : numN c.toNat = true) : rustIsWhitespace c = false := by
+  simp only [numN, Bool.or_eq_true, Bool.and_eq_true, decide_eq_true_eq, beq_iff_eq] at h
+  simp [rustIsWhitespace]
+  omega
+
+/-- a safe text is its own `trim` -/
+theorem rustTrim_safeText {s : String} (h : safeText s = true) : rustTrim s = s := by
+  simp only [safeText, Bool.and_eq_true, List.all_eq_true] at h
+  exact MT.rustTrim_of_noWs s (fun c hc => numN_noWs (h.2 c hc))
+
+/-- the second half of `MT.F64OK` / `MT.F32OK` (the printed text has no white space around it) is a consequence of
+    `FloatTextSafe ft`: with it, `F64OK` is again just "the parser inverts the printer on `v`" -/
+theorem F64OK_of_safe {ft : FloatText} (hft : FloatTextSafe ft) {fp : FloatParse} {v : UInt64}
+    (h : fp.f64 (ft.show64 v) = some v) : MT.F64OK ft fp v := ⟨h, rustTrim_safeText (hft.f64 v)⟩
+theorem F32OK_of_safe {ft : FloatText} (hft : FloatTextSafe ft) {fp : FloatParse} {v : UInt32}
+    (h : fp.f32 (ft.show32 v) = some v) : MT.F32OK ft fp v := ⟨h, rustTrim_safeText (hft.f32 v)⟩
+theorem F64OK_iff_of_safe {ft : FloatText} (hft : FloatTextSafe ft) (fp : FloatParse) (v : UInt64) :
+    MT.F64OK ft fp v ↔ fp.f64 (ft.show64 v) = some v := ⟨fun h => h.1, F64OK_of_safe hft⟩
+theorem F32OK_iff_of_safe {ft : FloatText} (hft : FloatTextSafe ft) (fp : FloatParse) (v : UInt32) :
+    MT.F32OK ft fp v ↔ fp.f32 (ft.show32 v) = some v := ⟨fun h => h.1, F32OK_of_safe hft⟩
+
 theorem numN_xml {c : Char} (h : numN c.toNat = true) : isXmlChar c = true := by
   simp only [numN, Bool.or_eq_true, Bool.and_eq_true, decide_eq_true_eq, beq_iff_eq] at h
   unfold isXmlChar
